@@ -21,7 +21,7 @@
 //!        W_t = train(F, decoy) run inside an explicit rayon pool of t threads; W' = the rows taken in the
 //!        order `perm`, in the pool of t1 threads (large tables: 1,100 .. 40,000 rows)
 //!   scorepsmst t n (21 fields)*n                               ->  as scorepsms, run inside a rayon pool of t threads
-//!   fdrrun decoys(0/1) fasta:hex mgf:hex                           ->  n (label poisson:f64 longest_y_pct:f32 disc:f32 ln1p:f32 spectrum_q:f32)*n
+//!   fdrrun decoys(0/1) predict_rt(0/1) fasta:hex mgf:hex                           ->  n (label poisson:f64 longest_y_pct:f32 disc:f32 ln1p:f32 spectrum_q:f32)*n
 //!        THE REAL `Runner::run` (the only public route to the private `Runner::spectrum_fdr` and its heuristic
 //!        fallback): FASTA + MGF are written to a private temp dir, a `sage_cli::runner::Runner` is built in-process
 //!        and run with 1 thread; `results.sage.tsv` is read back (ryu round-trips every float) and the rows are
@@ -51,7 +51,8 @@ pub const INFO: Info = Info {
            large-table (ops ldabig / scorepsmst): 1,100 / 2,049+1,500 / 5,000 / 40,000 rows x 2..4 features on the grid 2^-8, sorted by a feature / by label / shuffled, class shift 0.02 sd (weak) or ~1 sd, \
            train run inside explicit rayon pools of 1, 4 (quick) / 1, 2, 4, 16 threads plus a random row permutation; score_psms on 1,100 / 3,549 PSMs sorted by hyperscore in pools of 4 / 16 threads. \
            fdrrun: THE REAL Runner::run on tiny target-only searches (LDA not fitted => heuristic fallback of Runner::spectrum_fdr): 2..5 families of isobaric peptides \
-           (permutations of one composition, 1..5 members) with full / half / 3..5-peak b,y ladders plus noise, so that poisson ranges from about -0.3 to below -10; every 5th case with decoys; a single-PSM search. \
+           (permutations of one composition, 1..5 members) with full / half / 3..5-peak b,y ladders plus noise, so that poisson ranges from about -0.3 to below -10; every 5th case with decoys; a single-PSM search; predict_rt alternates. Searches WITH decoys and both classes reported: 3..7 target spectra (y-only / b+y / short y ladders) plus 1 (fit fails: zero-variance decoy class) or 2..3 (fit may succeed) spectra built from DECOY sequences with b ions only, each with predict_rt = true and false: \
+           poisson order and score order disagree around the decoy. \
            scorepsms: 1..80 (quick) / 400 PSM feature records with realistic ranges (finite poisson <= 0), large and small sets, \
            constant charge/rank columns, ion mobility present or all zero, two decoys only; a default-on family `nonfinite-feature-guarded` (fittable sets of 40..70 records in which 1..3 records carry poisson in {-inf,+inf,NaN,2.5,1.0} or \
            delta_rt_model / delta_ims_model in {+inf,-inf,negative,>1}: the guards of the feature transform must replace them, fit expected); variants that must fall back: one class empty, \
@@ -290,6 +291,7 @@ fn exec_fdrrun(t: &mut Toks) -> Option<String> {
     use sage_cli::runner::Runner;
     use sage_core::database::{Builder, EnzymeBuilder};
     let decoys = t.bool()?;
+    let predict_rt = t.bool()?;
     let fasta = t.string()?;
     let mgf = t.string()?;
     if !t.done() {
@@ -322,7 +324,7 @@ fn exec_fdrrun(t: &mut Toks) -> Option<String> {
         max_fragment_charge: None,
         min_matched_peaks: 2,
         report_psms: 1,
-        predict_rt: false,
+        predict_rt,
         mzml_paths: vec![mgf_path.to_string_lossy().to_string()],
         output_paths: Vec::new(),
         bruker_config: Default::default(),
@@ -1300,10 +1302,89 @@ fn fragments(seq: &[u8]) -> (Vec<f64>, f64) {
     (out, (total + 2.0 * PROTON as f64) / 2.0)
 }
 
-fn req_fdrrun(decoys: bool, fasta: &str, mgf: &str) -> String {
+fn req_fdrrun(decoys: bool, predict_rt: bool, fasta: &str, mgf: &str) -> String {
     let mut o = Out::new();
-    o.raw("fdrrun").b(decoys).s(fasta).s(mgf);
+    o.raw("fdrrun").b(decoys).b(predict_rt).s(fasta).s(mgf);
     o.finish()
+}
+
+/// one MGF block
+fn mgf_block(scan: usize, pmz: f64, peaks: &[(f64, f64)]) -> String {
+    let mut s = format!("BEGIN IONS\nTITLE=scan={}\nPEPMASS={}\nCHARGE=2+\nRTINSECONDS={}\n", scan, pmz, 60 + 7 * scan);
+    for (m, i) in peaks {
+        s.push_str(&format!("{} {}\n", m, i));
+    }
+    s.push_str("END IONS\n");
+    s
+}
+
+/// sage's decoy of a peptide: first and last residue fixed, the interior reversed (`Peptide::reverse`)
+fn decoy_of(seq: &[u8]) -> Vec<u8> {
+    let mut d = seq.to_vec();
+    let n = d.len() - 1;
+    if n > 1 {
+        d[1..n].reverse();
+    }
+    d
+}
+
+/// Searches WITH generated decoys in which both classes are reported. `ndecoy` spectra are built from the
+/// DECOY sequence of a database peptide (so the best match is the decoy), the rest from target sequences.
+/// With exactly one decoy PSM the mass-error KDE of the decoy class has zero variance, feature 5 is NaN and
+/// `score_psms` returns None although both classes are present: `spectrum_fdr` takes the fallback. The decoy
+/// spectra carry b ions only (longest_y_pct = 0) and the target spectra y ions only / both, with ladders of
+/// different completeness, so that the poisson order and the fallback-score order disagree around the decoy.
+fn gen_fdrrun_decoys(rng: &mut Rng, tier: Tier, emit: &mut dyn FnMut(Case)) {
+    let reps = if tier == Tier::Quick { 6 } else { 80 };
+    let alphabet = b"ADEFGHILMNQSTVWY";
+    for rep in 0..reps {
+        let ntarget = 3 + rng.below(5);
+        let ndecoy = if rep % 3 == 2 { 2 + rng.below(2) } else { 1 };
+        let mut fasta = String::new();
+        let mut blocks: Vec<String> = Vec::new();
+        let mut scan = 0usize;
+        for k in 0..ntarget + ndecoy {
+            let len = 8 + rng.below(7);
+            let mut seq: Vec<u8>;
+            loop {
+                seq = (0..len).map(|_| *rng.pick(alphabet)).collect();
+                seq.push(b'K');
+                if decoy_of(&seq) != seq {
+                    break;
+                }
+            }
+            fasta.push_str(&format!(">sp|Q{:03}|P{}\n{}\n", k, k, std::str::from_utf8(&seq).unwrap()));
+            let is_decoy = k >= ntarget;
+            let src = if is_decoy { decoy_of(&seq) } else { seq.clone() };
+            let (frags, pmz) = fragments(&src);
+            // frags alternate b, y
+            let kind = if is_decoy { 0 } else { 1 + (rep + k) % 3 }; // 0: b only, 1: y only, 2: both, 3: y prefix
+            let mut peaks: Vec<(f64, f64)> = Vec::new();
+            for (i, &m) in frags.iter().enumerate() {
+                let is_b = i % 2 == 0;
+                let keep = match kind {
+                    0 => is_b,
+                    1 => !is_b,
+                    2 => true,
+                    _ => !is_b && i / 2 >= frags.len() / 4, // the longer y ions only: a shorter ladder
+                };
+                if keep {
+                    peaks.push((m, 100.0 + 900.0 * rng.unit()));
+                }
+            }
+            peaks.sort_by(|a, b| a.0.total_cmp(&b.0));
+            blocks.push(mgf_block(scan, pmz, &peaks));
+            scan += 1;
+        }
+        let mgf: String = blocks.concat();
+        for predict_rt in [true, false] {
+            emit(Case::new(req_fdrrun(true, predict_rt, &fasta, &mgf))
+                .tag("fdrrun")
+                .tag("with-decoys")
+                .tag(if ndecoy == 1 { "single-decoy-psm" } else { "several-decoy-psms" })
+                .tag(if predict_rt { "predict-rt" } else { "no-predict-rt" }));
+        }
+    }
 }
 
 /// The real `Runner::run` on tiny searches whose LDA cannot be fitted (target-only database: one class
@@ -1362,7 +1443,7 @@ fn gen_fdrrun(rng: &mut Rng, tier: Tier, emit: &mut dyn FnMut(Case)) {
         }
         // target-only database: the LDA cannot be fitted; every 5th case keeps the decoys (fit may succeed)
         let decoys = rep % 5 == 4;
-        emit(Case::new(req_fdrrun(decoys, &fasta, &mgf))
+        emit(Case::new(req_fdrrun(decoys, rep % 2 == 0, &fasta, &mgf))
             .tag("fdrrun")
             .tag(if decoys { "with-decoys" } else { "target-only" }));
     }
@@ -1376,8 +1457,8 @@ fn gen_fdrrun(rng: &mut Rng, tier: Tier, emit: &mut dyn FnMut(Case)) {
     }
     mgf.push_str("END IONS\n");
     let fasta = format!(">sp|P000|ONE\n{}", std::str::from_utf8(&s).unwrap());
-    emit(Case::new(req_fdrrun(false, &fasta, &mgf)).tag("fdrrun").tag("single-psm"));
-    emit(Case::new(req_fdrrun(true, &fasta, &mgf)).tag("fdrrun").tag("single-psm").tag("with-decoys"));
+    emit(Case::new(req_fdrrun(false, true, &fasta, &mgf)).tag("fdrrun").tag("single-psm"));
+    emit(Case::new(req_fdrrun(true, false, &fasta, &mgf)).tag("fdrrun").tag("single-psm").tag("with-decoys"));
 }
 
 pub fn gen(rng: &mut Rng, tier: Tier, emit: &mut dyn FnMut(Case)) {
@@ -1388,4 +1469,5 @@ pub fn gen(rng: &mut Rng, tier: Tier, emit: &mut dyn FnMut(Case)) {
     gen_psms(rng, tier, emit);
     gen_big(rng, tier, emit);
     gen_fdrrun(rng, tier, emit);
+    gen_fdrrun_decoys(rng, tier, emit);
 }
